@@ -160,6 +160,110 @@ func rulesC14(p *Prog, r *Report) {
 		}
 	}
 
+	// R14.9 sweep breaker identity ------------------------------------------------------
+	// A sweep consults the breaker for the app it is sweeping and then walks positions: the vault
+	// it seizes must be tied to that app (the breaker's id comes from the vault record, or the
+	// seizure is reachable only through vault.AppId == the id the breaker was consulted for).
+	r.Rule("R14.9", "vault seizure in a sweep: the seized vault belongs to the app whose breaker was consulted", 2)
+	{
+		normV := func(v ssa.Value) string {
+			var parts []string
+			for _, o := range p.UpOrigins(p.Origins(v), 0) {
+				parts = append(parts, o.String())
+			}
+			parts = uniq(parts)
+			return strings.Join(parts, "|")
+		}
+		for _, sf := range []*ssa.Function{seize[0], seize[2]} {
+			for _, cs := range p.CallSitesOf(sf) {
+				host := cs.Parent()
+				caller := fname(host)
+				if _, ok := exemptCallers[caller]; ok {
+					continue
+				}
+				if sf == seize[2] && !strings.HasSuffix(caller, ".LiquidateIndividualVault") {
+					continue // V2 CreateLockedVault also starts borrow / surplus / debt auctions: only the vault seizure has a vault record
+				}
+				// breaker lookups on the way: in the host, its lexical parents and its direct callers
+				var lookups []ssa.CallInstruction
+				var scope []*ssa.Function
+				for f := host; f != nil; f = f.Parent() {
+					scope = append(scope, f)
+				}
+				for _, f := range append([]*ssa.Function{}, scope...) {
+					for _, up := range p.CallSitesOf(f) {
+						if up.Parent() != nil {
+							scope = append(scope, up.Parent())
+						}
+					}
+				}
+				for _, f := range scope {
+					for _, c := range calls(f) {
+						if p.callIs(c, "GetKillSwitchData") {
+							lookups = append(lookups, c)
+						}
+					}
+				}
+				if len(lookups) == 0 {
+					continue // R14.2 reports a site without any breaker test
+				}
+				r.Instance("R14.9")
+				construct := caller + " -> " + sf.Name() + " breaker app"
+				fromRecord := false
+				want := map[string]bool{}
+				for _, lc := range lookups {
+					args := callArgs(lc)
+					if len(args) < 2 {
+						continue
+					}
+					if p.fromRecordFieldsLoose(args[1], map[string]bool{"Vault": true}, map[string]bool{"AppId": true}) {
+						fromRecord = true
+					}
+					want[normV(args[1])] = true
+				}
+				if fromRecord {
+					r.OK("R14.9", construct, "the breaker is consulted under the vault's own stored app id", p.instrPos(cs))
+					continue
+				}
+				g := &GuardSpec{Name: "vault.AppId == swept app", Local: func(f *ssa.Function, cond ssa.Value) (bool, bool) {
+					a := p.Atom(cond)
+					if !a.IsCmp || (a.Op != "==" && a.Op != "!=") || a.X == nil || a.Y == nil {
+						return false, false
+					}
+					isRec := func(v ssa.Value) bool {
+						t, fld, _, ok := fieldRead(v)
+						return ok && t == "Vault" && fld == "AppId"
+					}
+					var other ssa.Value
+					switch {
+					case isRec(a.X):
+						other = a.Y
+					case isRec(a.Y):
+						other = a.X
+					default:
+						return false, false
+					}
+					if !want[normV(other)] {
+						return false, false
+					}
+					eq := a.Op == "=="
+					if a.Neg {
+						eq = !eq
+					}
+					if eq {
+						return true, false
+					}
+					return false, true
+				}}
+				if ok, chain := p.GuardedUp(g, cs); ok {
+					r.OK("R14.9", construct, "seizure only behind vault.AppId == the app whose breaker was consulted", p.instrPos(cs))
+				} else {
+					r.Fail("R14.9", construct, "the sweep consults the breaker of the app it is sweeping, but the vault it seizes is not tied to that app: another app's sweep liquidates vaults of an app whose breaker is enabled", p.instrPos(cs), chain)
+				}
+			}
+		}
+	}
+
 	// R14.3 ------------------------------------------------------------------------
 	r.Rule("R14.3", "every CDP debt mint is reachable only through the shutdown test; MsgWithdraw passes the cool-off test", 5)
 	eg := esmGuard(p)
